@@ -132,14 +132,20 @@ func (o op) String() string {
 func genOps(big, monotonic bool) *rapid.Generator[[]op] {
 	return rapid.Custom(func(t *rapid.T) []op {
 		lastID := uint64(0)
-		budget := rapid.IntRange(200<<10, 3<<20).Draw(t, "budget")
+		budget := rapid.OneOf(rapid.IntRange(1100<<10, 3<<20), rapid.IntRange(1100<<10, 3<<20), rapid.IntRange(100, 3<<20)).Draw(t, "budget")
 		if big {
 			budget = rapid.IntRange(10<<20-300<<10, 11<<20).Draw(t, "bigBudget")
 		}
 		n := rapid.IntRange(1, 40).Draw(t, "nOps")
 		var ops []op
 		used := 8
-		for i := 0; i < n || (big && used < budget-(400<<10)); i++ {
+		fillTo := 0 // keep writing until the volume has at least this many bytes
+		if big {
+			fillTo = budget - (400 << 10)
+		} else if rapid.IntRange(0, 2).Draw(t, "fill") > 0 {
+			fillTo = budget * 2 / 3
+		}
+		for i := 0; i < n || used < fillTo; i++ {
 			if i > 400 {
 				break
 			}
@@ -158,7 +164,7 @@ func genOps(big, monotonic bool) *rapid.Generator[[]op] {
 				used += 32
 				continue
 			}
-			size := rapid.OneOf(rapid.IntRange(1, 3000), rapid.IntRange(3000, 300<<10), rapid.IntRange(900<<10, 1200<<10),
+			size := rapid.OneOf(rapid.IntRange(1, 3000), rapid.IntRange(3000, 300<<10), rapid.IntRange(100<<10, 400<<10), rapid.IntRange(900<<10, 1200<<10),
 				rapid.SampledFrom([]int{1, 7, 8, 9, 1<<20 - 40, 1 << 20})).Draw(t, "size")
 			if big && rapid.Bool().Draw(t, "bigger") {
 				size = rapid.IntRange(300<<10, 1500<<10).Draw(t, "bigSize")
@@ -184,7 +190,7 @@ func mustNoErr(t fataler, err error, what string) {
 
 func TestPropRealVolumeEcReadRebuildDecode(t *testing.T) {
 	vlib.Check(t, 160, 2400, func(t *rapid.T) {
-		big := rapid.IntRange(0, vlib.Pick(39, 19)).Draw(t, "big") == 0
+		big := rapid.IntRange(0, vlib.Pick(19, 14)).Draw(t, "big") == 0
 		monotonic := rapid.IntRange(0, 2).Draw(t, "monotonicIds") == 0
 		ops := genOps(big, monotonic).Draw(t, "ops")
 		nLost := rapid.IntRange(0, 4).Draw(t, "nLost")
